@@ -628,11 +628,14 @@ class Miller(Vector3d):
         self._compatible_with(other, raise_error=True)
 
         if use_symmetry:
-            other2 = other.symmetrise(unique=True)
-            cosines = self.dot_outer(other2) / (
-                self.norm[..., np.newaxis] * other2.norm[np.newaxis, ...]
-            )
-            cosines = np.round(cosines, 12)
+            # Vectors symmetrically equivalent to each other vector in
+            # the second to last axis, so that the shapes of the vectors
+            # broadcast as they do without symmetry
+            other2 = self.phase.point_group.outer(other)
+            v2 = np.moveaxis(other2.data, 0, -2)
+            dots = np.sum(self.data[..., np.newaxis, :] * v2, axis=-1)
+            norms = self.norm[..., np.newaxis] * np.linalg.norm(v2, axis=-1)
+            cosines = np.round(dots / norms, 12)
             angles = np.min(np.arccos(cosines), axis=-1)
         else:
             angles = super().angle_with(other)
